@@ -17,10 +17,11 @@
 //     text is validated by parsing it back with encoding/json, yaml.v2 and go-toml/v2.
 //
 // Oracles (oracle.go, env.go), written from the statement:
-//   fmt   LoadFromJsonBytes / LoadFromYamlBytes / LoadFromTomlBytes: same verdict, DeepEqual values
-//   case  re-spelling the struct-field keys never changes the LoadFromJsonBytes result
-//   std   family B: mapping.UnmarshalJsonBytes and encoding/json both accept => DeepEqual values
-//   env   conf.Load expands ${VAR}/$VAR only under conf.UseEnv() (files under /verif/.work)
+//
+//	fmt   LoadFromJsonBytes / LoadFromYamlBytes / LoadFromTomlBytes: same verdict, DeepEqual values
+//	case  re-spelling the struct-field keys never changes the LoadFromJsonBytes result
+//	std   family B: mapping.UnmarshalJsonBytes and encoding/json both accept => DeepEqual values
+//	env   conf.Load expands ${VAR}/$VAR only under conf.UseEnv() (files under /verif/.work)
 //
 // Each failing pair is shrunk (shrink.go) to the smallest type/document that fails the same way;
 // the class key is <check>:<signature>:<shape of the shrunk case>.
